@@ -48,19 +48,19 @@ CHECKS = {
  "C14": ("PBT (proptest) crash oracle in an overflow-checked build (catch_unwind + recording panic hook); libFuzzer targets with ASan (thorough)",
          "All generators, constructors, sources, hostile lengths/histories/timers executed with overflow checks and debug assertions on; any panic outside the harness is a violation keyed on (message, file).",
          "Build profile of the harness has overflow-checks and debug-assertions on; set_rounds(0) excluded by construction.", "4/C14"),
- "C15": ("PBT (proptest) + GF(2) algebra through cfg(rngs_verif) hooks: affinity triples, rank of extracted 64x64 maps, special points, differential / birthday / orbit-related collision search",
+ "C15": ("PBT (proptest) + GF(2) algebra through cfg(rngs_verif) hooks: affinity triples, rank of extracted 64x64 maps (fold, stir, collection, var-rounds fold, test_timer run, generated API history), special points, differential / birthday / orbit-related collision search",
          "Fold (in pool and in time), stir and whole collections observed on the real code; affine + rank 64 decides bijectivity; model-free collision searches (differentials, birthday, inputs related by the step's own building blocks) cover non-affine redesigns; the fold is also observed with variable loop counts. Only an executed collision is reported.",
          "Assumes affinity outside sampled triples; hooks only read/set the pool and call the private stir.", "5/C15"),
- "C16": ("PBT (proptest), stateful: twin relations R1-R3 and read-count bookkeeping R4 over histories with clones on scripted timers",
+ "C16": ("PBT (proptest), stateful with fault injection: twin relations R1-R3 and read-count bookkeeping R4 over histories with clone / clone_from on scripted timers, incl. a timer that panics once at a generated reading",
          "u32;u32 == halves of u64 with zero reads in the second call; a pending half never influences a later output; a clone's first output is a fresh collection; every needed collection reads the timer >= rounds times.",
          "fill(n<=4) after next_u32 takes the pending half (composition rule).", "6/C16"),
- "C17": ("PBT (proptest): differential Debug text between different seeds under the same history + token scan for state/output words",
+ "C17": ("PBT (proptest): differential Debug text between different seeds under the same history, position-keyed over time, serde-crafted states, JitterRng pairs over different API histories / rounds / preset pools + token scan for state/output words",
          "Pairs of generators with different seeds/timers and the same history must print identical {:?}/{:#?} after every operation; no numeric token may equal a state, buffered or recent output word >= 2^20.",
          "The text is not pinned; buffered words observed as upcoming outputs of a clone.", "4/C17"),
  "C18": ("cross-configuration differential: one proptest-generated corpus replayed by vdigest built in {O0,O3} x {checks on,off} x {serde on,off}",
          "6900 (thorough 69000) generated cases over all generator types, cores and scripted JitterRng replayed in 4 (8) build configurations; digests must agree line by line; a disagreement is delta-debugged with the two binaries as oracle.",
          "Only x86-64 is buildable here.", "6/C18"),
- "C19": ("PBT (proptest) with a harness-owned scheduler over real OS threads + unsynchronised parallel runs + fresh-process solo and scenario traces (JitterRng through its whole API incl. rejected timers) + enumerated 1-/2-bit seed pairs + same-key constructor pairs and cross-type pairs + compiled Send/Sync probe",
+ "C19": ("PBT (proptest) with a harness-owned scheduler over real OS threads + unsynchronised parallel runs + fresh-process solo and scenario traces (JitterRng through its whole API incl. rejected timers) + enumerated 1-/2-bit seed pairs + same-key constructor pairs, cross-type pairs, nested and barrier-synchronised parallel construction + compiled Send/Sync probe",
          "Generated multi-instance scenarios with generated interleavings and thread migrations; every instance's trace must equal its solo replay before and after; free-running parallel groups; static Send+Sync assertions compiled against the tree.",
          "Interleavings inside one operation are not enumerated; JITTER_ROUNDS is outside the deterministic oracle.", "4/C19"),
 }
